@@ -54,9 +54,18 @@ VIRT = "abcdefg"
 _TIER = ["quick"]
 
 
-def _names(cls, which):
+def _names(cls, which, swap=False):
+    """index string of a class: occupied then virtual names; swap: the first
+    two names of a space are listed in descending order (ji.. / ..ba)"""
     off = which * 3
-    return OCC[off:off + cls[0]] + VIRT[off:off + cls[1]]
+    o = list(OCC[off:off + cls[0]])
+    v = list(VIRT[off:off + cls[1]])
+    if swap:
+        if len(o) >= 2:
+            o[0], o[1] = o[1], o[0]
+        elif len(v) >= 2:
+            v[0], v[1] = v[1], v[0]
+    return "".join(o) + "".join(v)
 
 
 def bounds(tier):
@@ -93,6 +102,15 @@ def generate(tier):
                     mo = min(mo, 1) if c1 != c2 or c1 != classes[0] else mo
                 for n in range(mo + 1):
                     cases.append(("isr", variant, c1, c2, n, True))
+                    if n <= 1:
+                        # index strings that list two indices of a space in
+                        # descending order (bra / ket)
+                        if max(c1) >= 2:
+                            cases.append(("isr", variant, c1, c2, n, True,
+                                          "b"))
+                        if max(c2) >= 2:
+                            cases.append(("isr", variant, c1, c2, n, True,
+                                          "k"))
                     if n <= 2:
                         cases.append(("mvp", variant, c1, c2, n, True))
                     if n <= 1 or (c1 == c2 == classes[0] and n <= 2):
@@ -109,7 +127,7 @@ def generate(tier):
                     if c != c3:
                         cases.append(("isr", variant, c, c3, n, True))
         cases.append(("bookkeeping", variant))
-    cases.sort(key=lambda c: (len(c) > 2 and c[4], c[0]))
+    cases.sort(key=lambda c: (len(c) > 2 and c[4], c[0], len(c)))
     return cases
 
 
@@ -203,9 +221,10 @@ def run_case(case):
     kind = case[0]
     if kind == "bookkeeping":
         return _run_bookkeeping(case)
-    _, variant, c1, c2, order, subtract_gs = case
+    _, variant, c1, c2, order, subtract_gs = case[:6]
+    perm = case[6] if len(case) > 6 else ""
     gs, isr, m = _objects(variant)
-    n1, n2 = _names(c1, 0), _names(c2, 1)
+    n1, n2 = _names(c1, 0, perm == "b"), _names(c2, 1, perm == "k")
     block = f"{space_string(c1)},{space_string(c2)}"
     indices = f"{n1},{n2}"
     lib2 = None
